@@ -238,3 +238,47 @@ Proof. destruct x; [reflexivity|]. unfold locate_spec, get_spec. rewrite locate_
 
 (* the known-finding variant of Locate/Walk: slices normalised by startEndStep *)
 Definition locate_ses (x : expr) (d : jv) : list pv := locate_six slice_indexes_ses x d.
+
+(* ---------------------------------------------------------------- streaming Match (C17) *)
+
+Definition frag_eqb' (a b : frag) : bool :=
+  match a, b with
+  | FRoot, FRoot => true
+  | FChild x, FChild y => bytes_eqb x y
+  | FNth x, FNth y => x =? y
+  | _, _ => false
+  end.
+Fixpoint path_eqb (p q : list frag) : bool :=
+  match p, q with
+  | [], [] => true
+  | a :: p', b :: q' => frag_eqb' a b && path_eqb p' q'
+  | _, _ => false
+  end.
+Fixpoint proper_prefix (p q : list frag) : bool :=
+  match p, q with
+  | [], _ :: _ => true
+  | a :: p', b :: q' => frag_eqb' a b && proper_prefix p' q'
+  | _, _ => false
+  end.
+
+(* every location of the document with its normalized path, in document (pre-)order *)
+Fixpoint pre_locs (p : list frag) (v : jv) {struct v} : list pv :=
+  (p, v) ::
+  match v with
+  | JArr l => (fix go (i : Z) (l : list jv) : list pv :=
+                 match l with [] => [] | c :: l' => pre_locs (p ++ [FNth i]) c ++ go (i + 1) l' end) 0 l
+  | JObj m => (fix go (m : list (bytes * jv)) : list pv :=
+                 match m with [] => [] | (k, c) :: m' => pre_locs (p ++ [FChild k]) c ++ go m' end) m
+  | _ => []
+  end.
+Definition all_locs (d : jv) : list pv := pre_locs [FRoot] d.
+
+(* the locations some target selects *)
+Definition selected (targets : list expr) (d : jv) : list (list frag) :=
+  flat_map (fun x => map fst (locate_spec x d)) targets.
+
+(* one callback per outermost selected location, in document order *)
+Definition match_spec (targets : list expr) (d : jv) : list pv :=
+  let sel := selected targets d in
+  filter (fun pc => existsb (path_eqb (fst pc)) sel && negb (existsb (fun s => proper_prefix s (fst pc)) sel))
+         (all_locs d).
